@@ -106,16 +106,29 @@ def r1_text_panic(c, facts):
                 elif 'DivisionByZero' in m or 'RemainderByZero' in m:
                     sinks.setdefault((fn.qname, 'div-by-zero'), []).append(t['ln'])
     seen_rows = 0
+    strip_cl = lambda q: re.sub(r'::\{closure#\d+\}', '', q)
+    owner = lambda q: strip_cl(q).rsplit('::', 1)[0]
+    # budget of a type / module: the rows of its functions together. A sink that moves into a new private helper of the
+    # same impl or module (extract-method) stays inside the budget; one sink more than was audited does not.
+    budget, reasons = {}, {}
+    for (fq, k), (mx, why) in ALLOW.items():
+        budget[(owner(fq), k)] = budget.get((owner(fq), k), 0) + mx
+        reasons.setdefault((owner(fq), k), []).append(why)
     for (q, k), lines in sorted(sinks.items()):
         # closures count under their parent function
-        base = re.sub(r'::\{closure#\d+\}', '', q)
+        base = strip_cl(q)
         row = ALLOW.get((base, k))
         inst = {'fn': q, 'sink': k, 'count': len(lines), 'lines': lines}
-        total = sum(len(v) for (q2, k2), v in sinks.items() if re.sub(r'::\{closure#\d+\}', '', q2) == base and k2 == k)
+        total = sum(len(v) for (q2, k2), v in sinks.items() if strip_cl(q2) == base and k2 == k)
+        gtotal = sum(len(v) for (q2, k2), v in sinks.items() if owner(q2) == owner(q) and k2 == k)
         if row and total <= row[0]:
             inst['bounded_by'] = row[1]
             c.ok(R, inst)
             c.sample(inst)
+            seen_rows += 1
+        elif gtotal <= budget.get((owner(q), k), 0):
+            inst['bounded_by'] = 'within the audited budget of %s (%d of %d `%s`): %s' % (owner(q), gtotal, budget[(owner(q), k)], k, ' | '.join(reasons[(owner(q), k)]))
+            c.ok(R, inst)
             seen_rows += 1
         else:
             c.bad(R, '%s:%s' % (base, k),
